@@ -29,6 +29,10 @@ CHECKS.update({
    text="Well-nestedness and once-per-macrostep stable notice are decided by the Lean checker on every trace, including runs with failing elements at random positions and top-level finals.",
    design_ref="6 / C13", note=ENGINE_NOTE),
 })
+CHECKS["C15"] = dict(category="exploration",
+   technique="Lean model of toJSON/fromJSON/jsmn with checked indices + theorems (escape/unescape inverse for all byte strings, string-scan boundary); differential on plain and ASan+UBSan builds",
+   text="Proved in Lean for every byte string: unescape(escape s) = s and the tokenizer's string scan ends at the printer's closing quote. The full round-trip theorem and 'fromJSON never reads out of bounds' are stated on the model but not yet proved; they are currently decided by the differential suites (exhaustive escape tables, random Data trees, truncations/mutations/random bytes on sanitizer builds), hence 'exploration'.",
+   design_ref="6 / C15", note="Trusted: hand model Model.Json (jsmn non-strict, token budget loop, tree builder), tied to the compiled code by the json suites; Data.node/binary outside the model.")
 PENDING = {}   # id -> reason (filled while the framework is being built)
 
 def main():
